@@ -39,6 +39,11 @@ def render(e, self_root=("arg", 1), rec_root=("arg", 2), state_path=("log_state"
         return "%s.%s" % (render(e[1], self_root, rec_root, state_path), e[2])
     if h == "agg":
         if e[2] in ("Some", "None") and str(e[1]).endswith("Option"):
+            if e[2] == "Some" and isinstance(e[3][0], tuple) and e[3][0] and e[3][0][0] == "okval":
+                # Some(<payload of the stored Option f>), built where f was found to be Some, is f itself
+                inner = render(e[3][0][1], self_root, rec_root, state_path)
+                if inner.startswith("state."):
+                    return inner
             return "Some(%s)" % render(e[3][0], self_root, rec_root, state_path) if e[2] == "Some" else "None"
         return "%s{%s}" % (e[2], ", ".join(render(x, self_root, rec_root, state_path) for x in e[3]))
     if h in ("call", "ret"):
